@@ -1,6 +1,6 @@
 /* h_file.c - File streams (C20).  Link with -Wl,--wrap=fopen,--wrap=fclose (stream accounting).
  *   reset
- *   new <o> [<path> <mode>] | open <o> <path> <mode>      mode: 1 rb 2 wb 3 r+b 4 w+b 5 ab 6 a+b ; path: small number
+ *   new <o> [<path> <mode>] | open <o> <path> <mode> | construct <o> <path> <mode>      mode: 1 rb 2 wb 3 r+b 4 w+b 5 ab 6 a+b ; path: small number
  *   write <o> <seed> <n> | read <o> <n> | seek <o> <off> <origin> | tell <o> | eof <o> | flush <o>
  *   close <o> | del <o> | withbegin <o> | withend <o> | print <o> <value> | scan <o>
  */
@@ -88,7 +88,9 @@ int main(int argc, char** argv) {
     }
     var f = fobj[o];
     if (!f) { ev_begin("missing"); ev_end(); continue; }
-    if (hc_is(0, "open")) { char pth[128]; strcpy(pth, path_of((int)hc_int(2))); HC_TRY(sopen(f, $S(pth), $S((char*)MODES[hc_int(3)]))); emit("open", o, hc_int(2), hc_int(3), hc_exc, 0); }
+    if (hc_is(0, "construct")) {          /* construct <o> <path> <mode> : the constructor run again on a File that exists (and may be open): it opens like sopen */
+      char pth[128]; strcpy(pth, path_of((int)hc_int(2))); HC_TRY(construct(f, $S(pth), $S((char*)MODES[hc_int(3)]))); emit("open", o, hc_int(2), hc_int(3), hc_exc, 0); }
+    else if (hc_is(0, "open")) { char pth[128]; strcpy(pth, path_of((int)hc_int(2))); HC_TRY(sopen(f, $S(pth), $S((char*)MODES[hc_int(3)]))); emit("open", o, hc_int(2), hc_int(3), hc_exc, 0); }
     else if (hc_is(0, "write")) {
       long seed = (long)hc_int(2), n = (long)hc_int(3);
       if ((size_t)n + 1 > rcap) { rcap = (size_t)n + 1; rbuf = realloc(rbuf, rcap); }
